@@ -85,7 +85,10 @@ def run(body: Callable[..., Any], *args: Any) -> bool:
     if not ok:
         if tracing:
             vals = _realize_args(args)
-            FAILS.append({"args": vals, "err": repr(err) if err is not None else None})
+            from crosshair.core import deep_realize
+            why = deep_realize(INFO.get("why"))
+            errs = deep_realize(repr(err)) if err is not None else None
+            FAILS.append({"args": vals, "err": errs, "why": why if isinstance(why, str) else repr(why)})
         else:
             INFO["err"] = repr(err) if err is not None else None
             if err is not None:
